@@ -15,6 +15,19 @@ ASSUMPTIONS = p_c01.ASSUMPTIONS + ["evictions (interest shrinking) are exercised
 class Part(p_c01.Part):
     FAULTS = True
 
+    @classmethod
+    def gen_cases(cls, rng, tier):
+        cases = super().gen_cases(rng, tier)
+        base = {"cfg": {"nds": False, "lds": False, "ns": "default", "dom": "cluster.local"}}
+        names = ["q%d" % i for i in range(1040)]
+        fixed = [
+            # the sender is held in a Send; more requests than the queue holds (1024) pile up behind a request of another type;
+            # once the sender is released every subscription change must still reach the stream
+            dict(base, ops=[{"op": "block_send"}, {"op": "lookup", "rt": "eds", "name": "e-first"}, {"op": "lookup", "rt": "cds", "name": "c-x"},
+                            {"op": "burst_unblock", "rt": "eds", "names": names}, {"op": "lookup", "rt": "rds", "name": "rc-a"}]),
+        ]
+        return fixed + cases
+
     @staticmethod
     def PROJECT(v, c, o):
         (cache, lookup, reqs, watched, acks, table, closed, s1, s2, s3, s4, s10, s19) = v
